@@ -51,6 +51,8 @@ pub enum Case {
     /// implementation name or pattern given as bytes that are not valid UTF-8 (a C caller can pass any
     /// NUL-terminated byte string): not a name, not a pattern, so the constructor must return null
     BadBytes { alist: String, imp: Vec<u8>, pattern: Vec<u8>, encoder: bool, via_file: bool },
+    /// one path, three constructor calls: the file holds H1, then is overwritten with H2, then is deleted
+    FileReuse { h1: Mat, h2: Mat, imp: String, llrs2: Vec<Fx>, limit: u32 },
 }
 
 fn pattern_string(p: &Option<Vec<bool>>) -> String {
@@ -62,10 +64,10 @@ fn pattern_string(p: &Option<Vec<bool>>) -> String {
 
 /// pattern whose length divides n, with at least one kept block
 fn pattern_for(n: usize) -> BoxedStrategy<Option<Vec<bool>>> {
-    let divisors: Vec<usize> = (1..=n.min(8)).filter(|d| n % d == 0).collect();
+    let divisors: Vec<usize> = (1..=n.min(12)).filter(|d| n % d == 0).collect();
     prop_oneof![
         2 => Just(None),
-        3 => (proptest::sample::select(divisors), proptest::collection::vec(any::<bool>(), 8), any::<u16>()).prop_map(|(len, bits, a)| {
+        3 => (proptest::sample::select(divisors), proptest::collection::vec(any::<bool>(), 12), any::<u16>()).prop_map(|(len, bits, a)| {
             let mut v: Vec<bool> = bits[..len].to_vec();
             if !v.iter().any(|&b| b) {
                 let i = idx(a, len);
@@ -78,7 +80,9 @@ fn pattern_for(n: usize) -> BoxedStrategy<Option<Vec<bool>>> {
 }
 
 fn decoder_case() -> BoxedStrategy<Case> {
-    decoder_matrix(8, 14)
+    // mostly up to 14 columns; a fifth up to 36, so that patterns of 7, 9, 11 and 12 blocks occur with
+    // several block sizes (ratios of pattern length to kept blocks that are inexact in floating point)
+    prop_oneof![4 => decoder_matrix(8, 14), 1 => decoder_matrix(8, 36)]
         .prop_flat_map(|h| {
             let n = h.cols;
             let hh = h.clone();
@@ -116,7 +120,7 @@ fn decoder_case() -> BoxedStrategy<Case> {
 }
 
 fn encoder_case() -> BoxedStrategy<Case> {
-    (super::c02::strategy(12), any::<bool>(), any::<bool>())
+    (prop_oneof![4 => super::c02::strategy(12), 1 => super::c02::strategy(36)], any::<bool>(), any::<bool>())
         .prop_flat_map(|(c, padded, via_file)| {
             let n = c.h.cols;
             let k = n - c.h.rows;
@@ -175,8 +179,18 @@ fn bad_case() -> BoxedStrategy<Case> {
     .boxed()
 }
 
+fn file_reuse_case() -> BoxedStrategy<Case> {
+    (decoder_matrix(6, 12), decoder_matrix(6, 12), 0..36usize, 0u32..=5)
+        .prop_flat_map(|(h1, h2, imp, limit)| {
+            let l = llr_vector(&h2);
+            (Just(h1), Just(h2), Just(imp), l, Just(limit))
+        })
+        .prop_map(|(h1, h2, imp, llrs2, limit)| Case::FileReuse { h1, h2, imp: NAMES[imp].to_string(), llrs2: llrs2.into_iter().map(Fx).collect(), limit })
+        .boxed()
+}
+
 fn strategy(_t: Tier) -> BoxedStrategy<Case> {
-    prop_oneof![5 => decoder_case(), 2 => encoder_case(), 3 => bad_case()].boxed()
+    prop_oneof![10 => decoder_case(), 4 => encoder_case(), 6 => bad_case(), 1 => file_reuse_case()].boxed()
 }
 
 // ---------------------------------------------------------------------------
@@ -408,6 +422,51 @@ fn run_case(case: &Case) -> Check {
             }
             Ok(())
         }
+        Case::FileReuse { h1, h2, imp, llrs2, limit } => {
+            let ci = cstr(imp);
+            let cp = cstr("");
+            let file = scratch_file("fr");
+            let cf = cstr(file.to_str().unwrap());
+            let imp_rust: DecoderImplementation = imp.parse().map_err(|e| Fail::new("harness", format!("{imp}: {e}")))?;
+            // 1. the file holds H1
+            std::fs::write(&file, own_alist(h1, true)).map_err(|e| Fail::new(INCONCLUSIVE, format!("cannot write scratch file: {e}")))?;
+            let a = unsafe { ldpc_toolbox_decoder_ctor(cf.as_ptr(), ci.as_ptr(), cp.as_ptr()) };
+            if a.is_null() {
+                let _ = std::fs::remove_file(&file);
+                return Err(Fail::new("ctor-null", format!("decoder constructor returned null for a valid alist file ({imp})")));
+            }
+            unsafe { ldpc_toolbox_decoder_dtor(a) };
+            // 2. the same path now holds H2
+            let text2 = own_alist(h2, false);
+            std::fs::write(&file, &text2).map_err(|e| Fail::new(INCONCLUSIVE, format!("cannot write scratch file: {e}")))?;
+            let b = unsafe { ldpc_toolbox_decoder_ctor(cf.as_ptr(), ci.as_ptr(), cp.as_ptr()) };
+            if b.is_null() {
+                let _ = std::fs::remove_file(&file);
+                return Err(Fail::new("ctor-null", format!("decoder constructor returned null for a valid alist file that replaced another one at the same path ({imp})")));
+            }
+            let llrs = fx_vec(llrs2);
+            let n2 = h2.cols;
+            let mut out = vec![0xEEu8; n2 + 4];
+            let ret = unsafe { ldpc_toolbox_decoder_decode_f64(b, out.as_mut_ptr(), n2, llrs.as_ptr(), llrs.len(), *limit) };
+            unsafe { ldpc_toolbox_decoder_dtor(b) };
+            let parsed = ldpc_toolbox::sparse::SparseMatrix::from_alist(&text2).map_err(|e| Fail::new("harness", format!("own alist rejected: {e}")))?;
+            let want = imp_rust.build_decoder(parsed).decode(&llrs, *limit as usize);
+            let (want_ret, want_word) = match &want {
+                Ok(o) => (o.iterations as i32, &o.codeword),
+                Err(o) => (-1, &o.codeword),
+            };
+            let _ = std::fs::remove_file(&file);
+            if ret != want_ret || out[..n2] != want_word[..] {
+                return Err(Fail::new("file-reuse", format!("{imp}: after the alist file at one path was replaced by another matrix ({} x {} instead of {} x {}), the handle built from that path returned {ret} / {:?}, the Rust decoder of the new matrix gives {want_ret} / {want_word:?}", h2.rows, h2.cols, h1.rows, h1.cols, &out[..n2])));
+            }
+            // 3. the file is gone
+            let c = unsafe { ldpc_toolbox_decoder_ctor(cf.as_ptr(), ci.as_ptr(), cp.as_ptr()) };
+            if !c.is_null() {
+                unsafe { ldpc_toolbox_decoder_dtor(c) };
+                return Err(Fail::new("ctor-not-null", format!("decoder constructor returned a handle for a path whose file has been deleted ({imp})")));
+            }
+            Ok(())
+        }
         Case::BadBytes { alist, imp, pattern, encoder, via_file } => {
             let ci = CString::new(imp.clone()).map_err(|_| Fail::new("harness", "NUL in generated bytes".to_string()))?;
             let cp = CString::new(pattern.clone()).map_err(|_| Fail::new("harness", "NUL in generated bytes".to_string()))?;
@@ -498,7 +557,7 @@ pub fn property() -> Property {
         id: "C19",
         subs: vec![Box::new(Sub {
             name: "c-api",
-            rule: "each case in a child process (abort isolation). Decoder handles: alist (own writer, padded or not, as text or as a file) of a C01-style matrix, one of the 36 names, pattern '' or a 0/1 list with >= one 1 whose length divides n, then 1..=8 decode calls (f64 or f32 buffers of the punctured length, output_len in 0..=n, limits incl. 0 and, for frames that a fresh Rust decoder converges on within 64 iterations, 10^6, 2^31-1, 2^31 and 2^32-1): return value = iterations / -1 and the output = leading bits of what a fresh Rust decoder returns for Puncturer::depuncture(llrs) (f32 widened); guard bytes behind the buffer untouched. Encoder handles: C02-style matrices, pattern, 1..=4 messages: output = punctured Encoder::encode; a singular tail must give null. Failing constructors: malformed alist texts (C08 generator, filtered to texts the Rust parser rejects), unknown names, malformed patterns, missing file, directory instead of file, singular tail, names / patterns that are not valid UTF-8 -> null. Non-trivial = decoder handle with >= 2 calls, encoder with a pattern, or a failing constructor; inner = decode calls",
+            rule: "each case in a child process (abort isolation). Decoder handles: alist (own writer, padded or not, as text or as a file) of a C01-style matrix, one of the 36 names, pattern '' or a 0/1 list with >= one 1 whose length (up to 12) divides n (n up to 14, in a fifth of the cases up to 36), then 1..=8 decode calls (f64 or f32 buffers of the punctured length, output_len in 0..=n, limits incl. 0 and, for frames that a fresh Rust decoder converges on within 64 iterations, 10^6, 2^31-1, 2^31 and 2^32-1): return value = iterations / -1 and the output = leading bits of what a fresh Rust decoder returns for Puncturer::depuncture(llrs) (f32 widened); guard bytes behind the buffer untouched. Encoder handles: C02-style matrices, pattern, 1..=4 messages: output = punctured Encoder::encode; a singular tail must give null. One path used three times (file holds H1, is overwritten with H2, is deleted): the second handle decodes as the Rust decoder of H2, the third constructor returns null. Failing constructors: malformed alist texts (C08 generator, filtered to texts the Rust parser rejects), unknown names, malformed patterns, missing file, directory instead of file, singular tail, names / patterns that are not valid UTF-8 -> null. Non-trivial = decoder handle with >= 2 calls, encoder with a pattern, or a failing constructor; inner = decode calls",
             cases: |t| t.pick(12_000, 400_000),
             strategy,
             check,
